@@ -923,4 +923,118 @@ theorem decodeNeg_enc_auth (pf : Profile) (user pass : Text) (hpf : pf.creds = s
   simp [encAuth]
   omega
 
+/-! ### The relay: every schedule forwards every payload intact -/
+
+def Job.isOwned : Job → Bool
+  | .owned _ => true
+  | .alias .. => false
+
+/-- What is still owed to the tunnels in state `s`, with what was already sent. -/
+def Relay.pending (c : IPText) (s : Relay) : List UDest :=
+  s.sent ++ (s.jobs.flatMap (fun j => (runJob c s.buf j).toList) ++
+    s.queue.flatMap (fun d => (udpExpect c d).toList))
+
+theorem runJob_owned (c : IPText) (buf data : Bytes) : runJob c buf (.owned data) = udpExpect c data := by
+  have h := parseUDP_spec c data
+  unfold runJob
+  cases hp : parseUDPHeader c data <;> simp [hp, UOut.res] at h ⊢ <;> exact h
+
+theorem runJob_buf_indep (c : IPText) (b1 b2 : Bytes) (j : Job) (h : j.isOwned = true) :
+    runJob c b1 j = runJob c b2 j := by
+  cases j with
+  | owned d => rw [runJob_owned, runJob_owned]
+  | alias => simp [Job.isOwned] at h
+
+theorem flatMap_jobs_buf_indep (c : IPText) (b1 b2 : Bytes) (js : List Job)
+    (h : ∀ j ∈ js, j.isOwned = true) :
+    js.flatMap (fun j => (runJob c b1 j).toList) = js.flatMap (fun j => (runJob c b2 j).toList) := by
+  induction js with
+  | nil => rfl
+  | cons j js ih =>
+    simp only [List.flatMap_cons]
+    rw [runJob_buf_indep c b1 b2 j (h j (List.mem_cons_self ..)),
+      ih (fun x hx => h x (List.mem_cons_of_mem _ hx))]
+
+theorem relayExpect_flatMap (c : IPText) (ds : List Bytes) :
+    relayExpect c ds = ds.flatMap (fun d => (udpExpect c d).toList) := by
+  unfold relayExpect
+  induction ds with
+  | nil => rfl
+  | cons d ds ih =>
+    simp only [List.filterMap_cons, List.flatMap_cons, ← ih]
+    cases udpExpect c d <;> simp
+
+def Relay.Inv (c : IPText) (ds : List Bytes) (s : Relay) : Prop :=
+  (∀ j ∈ s.jobs, j.isOwned = true) ∧ ∀ a, (s.pending c).count a = (relayExpect c ds).count a
+
+theorem Relay.inv_init (c : IPText) (ds : List Bytes) : (Relay.init ds).Inv c ds := by
+  refine ⟨by simp [Relay.init], fun a => ?_⟩
+  simp [Relay.pending, Relay.init, relayExpect_flatMap]
+
+theorem Relay.inv_step (c : IPText) (ds : List Bytes) (s : Relay) (st : RStep) (h : s.Inv c ds) :
+    (s.step c .copyAtRead st).Inv c ds := by
+  obtain ⟨hown, hcnt⟩ := h
+  cases st with
+  | read =>
+    unfold Relay.step
+    cases hq : s.queue with
+    | nil => simpa [hq] using ⟨hown, hcnt⟩
+    | cons d q =>
+      have htk : (overwrite s.buf d).take d.length = d := by simp [overwrite]
+      simp only [spawn, htk, Option.toList_some]
+      refine ⟨?_, fun a => ?_⟩
+      · intro j hj
+        rcases List.mem_append.mp hj with hj | hj
+        · exact hown j hj
+        · simp at hj; subst hj; rfl
+      · rw [← hcnt a]
+        simp only [Relay.pending, hq, List.flatMap_append, List.flatMap_cons, List.flatMap_nil, List.append_nil,
+          runJob_owned, flatMap_jobs_buf_indep c (overwrite s.buf d) s.buf s.jobs hown, List.count_append]
+        omega
+  | run i =>
+    unfold Relay.step
+    cases hj : s.jobs[i]? with
+    | none => simpa [hj] using ⟨hown, hcnt⟩
+    | some j =>
+      obtain ⟨hi, hji⟩ := List.getElem?_eq_some_iff.mp hj
+      have hsplit : s.jobs = s.jobs.take i ++ j :: s.jobs.drop (i + 1) := by
+        rw [← hji, ← List.drop_eq_getElem_cons hi, List.take_append_drop]
+      simp only [hj]
+      refine ⟨?_, fun a => ?_⟩
+      · intro x hx
+        rw [List.eraseIdx_eq_take_drop_succ] at hx
+        apply hown x
+        rw [hsplit]
+        rcases List.mem_append.mp hx with hx | hx
+        · exact List.mem_append_left _ hx
+        · exact List.mem_append_right _ (List.mem_cons_of_mem _ hx)
+      · rw [← hcnt a]
+        simp only [Relay.pending, List.eraseIdx_eq_take_drop_succ]
+        conv => rhs; rw [hsplit]
+        simp only [List.flatMap_append, List.flatMap_cons, List.count_append]
+        omega
+
+theorem Relay.inv_exec (c : IPText) (ds : List Bytes) (sch : List RStep) (s : Relay) (h : s.Inv c ds) :
+    (s.exec c .copyAtRead sch).Inv c ds := by
+  induction sch generalizing s with
+  | nil => exact h
+  | cons st sch ih => exact ih _ (Relay.inv_step c ds s st h)
+
+theorem relay_holds (c : IPText) (ds : List Bytes) (sch : List RStep)
+    (hq : ((Relay.init ds).exec c .copyAtRead sch).quiescent = true) :
+    holdsRelay c ds ((Relay.init ds).exec c .copyAtRead sch).sent = true := by
+  have hinv := Relay.inv_exec c ds sch _ (Relay.inv_init c ds)
+  generalize (Relay.init ds).exec c .copyAtRead sch = s at hq hinv
+  obtain ⟨_, hcnt⟩ := hinv
+  simp only [Relay.quiescent, Bool.and_eq_true, List.isEmpty_iff] at hq
+  unfold holdsRelay
+  rw [List.isPerm_iff, List.perm_iff_count]
+  intro a
+  rw [← hcnt a]
+  simp [Relay.pending, hq.1, hq.2]
+
+/-- Every schedule that reads all datagrams and runs all goroutines exists: read everything, then
+run the goroutines front to back. -/
+def fifoSchedule (n : Nat) : List RStep := List.replicate n .read ++ List.replicate n (.run 0)
+
 end Tunnox.C20
